@@ -2,8 +2,8 @@
    /repo/internal/caching/pcache.go (Gen/CacheConsts.v): a change of _LoadFactor or _InitCapacity changes
    these statements and has to re-establish the side conditions below by computation. *)
 From Coq Require Import NArith Arith List Bool Lia.
-From SV.Gen Require Import CacheConsts LoaderMap.
-From SV.Cache Require Import PCache PCacheArr PCacheProbe PCacheInv PCacheProofs LoadMap LoadMapProofs C09Model.
+From SV.Gen Require Import CacheConsts LoaderMap EncCacheKey.
+From SV.Cache Require Import PCache PCacheArr PCacheProbe PCacheInv PCacheProofs LoadMap LoadMapProofs C09Model Served.
 Import ListNotations.
 Open Scope N_scope.
 
@@ -102,3 +102,58 @@ Example loadmany_own_code_same_names :
   let items := [mkItem [100; 95; 120; 46; 84] [184; 1; 0; 0; 0; 195]; mkItem [100; 95; 120; 46; 84] [184; 2; 0; 0; 0; 195; 204; 204]] in
   loader_loadmany items = [Some 0; Some 6].
 Proof. vm_compute. reflexivity. Qed.
+
+(* ---- which program serves a type: the encoder caches are keyed by (type, pv)  (Gen/EncCacheKey.v, from vars/cache.go) *)
+Lemma enc_cache_eqb_spec : forall a b, enc_cache_eqb a b = true <-> a = b.
+Proof. intros [] []; cbn; split; congruence. Qed.
+
+(* the key shape: all three entry points address the cache `cacheOf pv`, hand pv to the compiler, and the two flag values
+   have different caches.  With one cache for both (the tree before fix ea86c56) `cacheOf_inj` is false. *)
+Lemma cacheOf_inj : forall a b, cacheOf a = cacheOf b -> a = b.
+Proof. intros [] []; cbn; congruence. Qed.
+Lemma fc_get_keyed : forall pv, FindOrCompile_get pv = cacheOf pv.
+Proof. intros []; reflexivity. Qed.
+Lemma fc_compute_keyed : forall pv, FindOrCompile_compute pv = (cacheOf pv, pv).
+Proof. intros []; reflexivity. Qed.
+Lemma gp_get_keyed : forall pv, GetProgram_get pv = cacheOf pv.
+Proof. intros []; reflexivity. Qed.
+Lemma cp_compute_keyed : forall pv, ComputeProgram_compute pv = (cacheOf pv, pv).
+Proof. intros []; reflexivity. Qed.
+
+Theorem served_history_free :
+  forall (hash : N -> N) (compile : N -> bool -> option N) (h : list hop),
+    (forall k pv v, compile k pv = Some v -> v <> 0) ->
+    Forall hop_ok h ->
+    LoadFactor_den * (hsize h + 1) <= LoadFactor_num * 2 ^ 31 ->
+    exists st', enc_hrun hash compile h = Some (st', expected compile h) /\
+                forall k pv, k <> 0 ->
+                  let v := Get hash (st' (GetProgram_get pv)) k in v = 0 \/ compile k pv = Some v.
+Proof.
+  intros hash compile h Hc Hok Hb. destruct init_cap_pow2 as [Hcap [_ H31]]. unfold enc_hrun. rewrite Hcap.
+  exact (served_history_free_gen enc_cache enc_cache_eqb hash LoadFactor_num LoadFactor_den compile
+           FindOrCompile_get FindOrCompile_compute GetProgram_get ComputeProgram_compute cacheOf
+           enc_cache_eqb_spec cacheOf_inj fc_get_keyed fc_compute_keyed gp_get_keyed cp_compute_keyed
+           lf_pos lf_le1 Hc init_exp h H31 Hok Hb).
+Qed.
+
+Example served_hypotheses_satisfiable :
+  let compile := fun (k : N) (pv : bool) => if k =? 9 then None else Some (2 * k + (if pv then 1 else 0)) in
+  let h := [HFind 3 true; HBatch [(3, false); (4, true); (9, false)]; HFind 3 false; HPretouch 4 false; HFind 4 true; HFind 9 true] in
+  Forall hop_ok h /\ LoadFactor_den * (hsize h + 1) <= LoadFactor_num * 2 ^ 31 /\
+  expected compile h = [Some 7; Some 6; Some 9; None].
+Proof.
+  cbn. split; [|split; [discriminate|reflexivity]].
+  repeat constructor; cbn; try discriminate. intros e [<-|[<-|[<-|[]]]]; discriminate.
+Qed.
+
+(* the same model with ONE cache for both flag values (the shape before fix ea86c56: key = type only): the program that
+   serves (type 1, pv=false) is whatever was compiled first - the observed defect, Marshal([]T) vs Marshal(map[string]T) *)
+Example served_type_only_key_refuted :
+  let compile := fun (k : N) (pv : bool) => Some (2 * k + (if pv then 1 else 0)) in
+  let one := fun (_ : bool) => tt in
+  let one2 := fun (pv : bool) => (tt, pv) in
+  let run := hrun unit (fun _ _ => true) (fun _ => 0) 1 2 compile one one2 one one2 (fun _ => newProgramMap 4) in
+  option_map snd (run [HFind 1 true; HFind 1 false]) = Some [Some 3; Some 3] /\
+  option_map snd (run [HFind 1 false; HFind 1 true]) = Some [Some 2; Some 2] /\
+  expected compile [HFind 1 true; HFind 1 false] = [Some 3; Some 2].
+Proof. vm_compute. repeat split; reflexivity. Qed.
